@@ -12,9 +12,10 @@ Generated definitions
   upd_registers   c d u   update_packed_value (GuppyObject case): re-entered into the dict
   leak_raises     ne      trace_function: end-of-function check raises (ne = dict non-empty)
   input_frozen    b       trace_function: `frozen` flag of an input (b = borrowed/Inout)
-  unpack_child_frozen / unpack_struct_frozen / unpack_list_frozen  f
-                          unpack_guppy_object: flag handed to children / struct object /
-                          whether the list becomes a frozenlist
+  unpack_{tuple,struct,list}_child_frozen f   unpack_guppy_object, PER TYPE CASE: the flag handed to the
+                          recursive calls for the elements (a call that omits it gets `false`)
+  unpack_struct_frozen / unpack_list_frozen f   flag of the GuppyStructObject / whether the list
+                          becomes a frozenlist
   setattr_outcome is_field frozen     GuppyStructObject.__setattr__
   frozen_overrides        methods defined by class frozenlist, with the shape of their body
 (c, d, u = type copyable, type droppable, object's `_used` is set.)
@@ -212,30 +213,76 @@ def tr_unpacking(path: Path):
         _fail("update_packed_value: re-registration block not recognised")
     env = {"v_obj._ty.droppable": "d", "v_obj._ty.copyable": "c", "v_obj._used": "u"}
     out["upd_registers"] = cond(body[2].test, env, "update_packed_value")
-    # ---- unpack_guppy_object: frozen propagation
+    # ---- unpack_guppy_object: frozen propagation, PER TYPE CASE
     un = _fn(mod, "unpack_guppy_object")
     if [a.arg for a in un.args.args] != ["obj", "builder", "frozen"]:
         _fail("unpack_guppy_object: unexpected parameters")
     env = {"frozen": "f"}
-    child, struct, lst = set(), set(), set()
-    for n in ast.walk(un):
-        if isinstance(n, ast.Call) and ast.unparse(n.func) == "unpack_guppy_object":
-            if len(n.args) != 3 or n.keywords:
-                _fail("unpack_guppy_object: recursive call without positional `frozen`")
-            child.add(cond(n.args[2], env, "unpack_guppy_object"))
-        if isinstance(n, ast.Call) and ast.unparse(n.func) == "GuppyStructObject":
-            if len(n.args) != 3 or n.keywords:
-                _fail("unpack_guppy_object: GuppyStructObject(...) call not recognised")
-            struct.add(cond(n.args[2], env, "unpack_guppy_object"))
-        if isinstance(n, ast.Return) and n.value is not None and "frozenlist" in ast.unparse(n.value):
-            v = n.value
-            if not (isinstance(v, ast.IfExp) and ast.unparse(v.body) == "frozenlist(obj_list)" and ast.unparse(v.orelse) == "obj_list"):
-                _fail("unpack_guppy_object: list result not of the form `frozenlist(obj_list) if c else obj_list`")
-            lst.add(cond(v.test, env, "unpack_guppy_object"))
-    for nm, s in (("child", child), ("struct", struct), ("list", lst)):
+
+    def frozen_arg(call, what):
+        """third argument of a call (positional or `frozen=`); a call that leaves it out gets
+        the parameter's default, which must be the constant False"""
+        kws = {k.arg: k.value for k in call.keywords}
+        if len(call.args) >= 3 and not kws:
+            return cond(call.args[2], env, what)
+        if len(call.args) == 2 and set(kws) == {"frozen"}:
+            return cond(kws["frozen"], env, what)
+        if len(call.args) == 2 and not kws:
+            return "false"
+        _fail(f"{what}: call shape not recognised: {ast.unparse(call)}")
+    dflt = un.args.defaults
+    if not (len(dflt) == 1 and isinstance(dflt[0], ast.Constant) and dflt[0].value is False):
+        _fail("unpack_guppy_object: default of `frozen` is not False")
+    cases = {}
+    for c in _match_cases(un):
+        pt = ast.unparse(c.pattern)
+        gd = ast.unparse(c.guard) if c.guard is not None else ""
+        if pt == "TupleType(element_types=tys)":
+            cases["tuple"] = c
+        elif pt == "StructType() as ty":
+            cases["struct"] = c
+        elif gd == "is_array_type(ty)":
+            cases["list"] = c
+        elif pt in ("NoneType()", "_"):
+            if any(isinstance(n, ast.Call) and ast.unparse(n.func) in ("unpack_guppy_object", "GuppyStructObject", "frozenlist")
+                   for s in c.body for n in ast.walk(s)):
+                _fail(f"unpack_guppy_object: case `{pt}` builds containers")
+        else:
+            _fail(f"unpack_guppy_object: unknown case `{pt}`")
+    if set(cases) != {"tuple", "struct", "list"}:
+        _fail(f"unpack_guppy_object: cases found {sorted(cases)}")
+
+    def uniq(s, what):
         if len(s) != 1:
-            _fail(f"unpack_guppy_object: {nm} frozen flag not unique: {sorted(s)}")
-    out["unpack_child_frozen"], out["unpack_struct_frozen"], out["unpack_list_frozen"] = child.pop(), struct.pop(), lst.pop()
+            _fail(f"unpack_guppy_object: {what}: expected exactly one flag expression, got {sorted(s)}")
+        return next(iter(s))
+    for nm, c in cases.items():
+        rec, struct, lst = set(), set(), set()
+        for s in c.body:
+            for n in ast.walk(s):
+                if isinstance(n, ast.Call) and ast.unparse(n.func) == "unpack_guppy_object":
+                    rec.add(frozen_arg(n, f"unpack_guppy_object/{nm}"))
+                if isinstance(n, ast.Call) and ast.unparse(n.func) == "GuppyStructObject":
+                    if nm != "struct":
+                        _fail("unpack_guppy_object: GuppyStructObject built outside the struct case")
+                    struct.add(frozen_arg(n, "GuppyStructObject(...)"))
+                if isinstance(n, ast.Return) and n.value is not None and "obj_list" in ast.unparse(n.value):
+                    v = n.value
+                    if nm != "list":
+                        _fail("unpack_guppy_object: list built outside the array case")
+                    if isinstance(v, ast.IfExp) and ast.unparse(v.body) == "frozenlist(obj_list)" and ast.unparse(v.orelse) == "obj_list":
+                        lst.add(cond(v.test, env, "unpack_guppy_object/list"))
+                    elif ast.unparse(v) == "frozenlist(obj_list)":
+                        lst.add("true")
+                    elif ast.unparse(v) == "obj_list":
+                        lst.add("false")
+                    else:
+                        _fail("unpack_guppy_object: list result not of the form `frozenlist(obj_list) if c else obj_list`")
+        out[f"unpack_{nm}_child_frozen"] = uniq(rec, f"{nm} children")
+        if nm == "struct":
+            out["unpack_struct_frozen"] = uniq(struct, "struct object")
+        if nm == "list":
+            out["unpack_list_frozen"] = uniq(lst, "list object")
     return out
 
 
@@ -326,7 +373,8 @@ def tr_frozenlist(path: Path):
 
 SPEC = {"init_registers": "((negb d) && (negb u))", "use_raises": "(u && (negb c))", "use_pops": "(negb d)",
         "upd_registers": "((negb d) && u)", "leak_raises": "ne", "input_frozen": "(negb b)",
-        "unpack_child_frozen": "f", "unpack_struct_frozen": "f", "unpack_list_frozen": "f",
+        "unpack_tuple_child_frozen": "f", "unpack_struct_child_frozen": "f", "unpack_list_child_frozen": "f",
+        "unpack_struct_frozen": "f", "unpack_list_frozen": "f",
         "setattr_outcome": "(if is_field then (if frozen then SRaiseFrozen else SStored) else SRaiseAttr)"}
 
 
@@ -339,7 +387,8 @@ def render(o, ov, mutators, list_callables, header="GENERATED by props/C22/tr_tr
         L.append(f"Definition {nm} (c d u : bool) : bool := {o[nm]}.")
     L.append(f"Definition leak_raises (ne : bool) : bool := {o['leak_raises']}.")
     L.append(f"Definition input_frozen (b : bool) : bool := {o['input_frozen']}.")
-    for nm in ("unpack_child_frozen", "unpack_struct_frozen", "unpack_list_frozen"):
+    for nm in ("unpack_tuple_child_frozen", "unpack_struct_child_frozen", "unpack_list_child_frozen",
+               "unpack_struct_frozen", "unpack_list_frozen"):
         L.append(f"Definition {nm} (f : bool) : bool := {o[nm]}.")
     L.append(f"Definition setattr_outcome (is_field frozen : bool) : sres := {o['setattr_outcome']}.")
     L.append("")
